@@ -309,6 +309,9 @@ func (w *c32World) process(f *FullSyncStrategy, bad []string, spec string) (out 
 }
 
 func c32Run(in string) string {
+	if strings.HasPrefix(in, "imp ") {
+		return c32iRun(in) // harness_importer_test.go
+	}
 	parts := strings.Split(in, " ")
 	w := c32NewWorld(parts[0])
 	var bad []string
@@ -511,7 +514,9 @@ func c32GenCase(r *vu.RNG) string {
 		if r.Chance(1, 10) {
 			nres = r.Range(6, 12)
 		}
-		for k := 0; k < nres; k++ {
+		weight := 0 // ready fragments this call can produce (the model's sort is exact up to 12)
+		for k := 0; k < nres && weight < 12; k++ {
+			weight++
 			damage := 0
 			if r.Chance(1, 4) {
 				damage = r.Range(1, 7)
@@ -533,9 +538,14 @@ func c32GenCase(r *vu.RNG) string {
 				if r.Chance(1, 8) {
 					fields = 2
 				}
+				if weight+len(ids) > 12 {
+					continue
+				}
+				weight += len(ids) - 1
 				results = append(results, g.result(ids, fields, damage))
 			case 3: // duplicate of an earlier result
-				if len(results) > 0 {
+				if len(results) > 0 && weight < 11 {
+					weight++ // a duplicated body-only result may count twice
 					results = append(results, results[r.Intn(len(results))])
 				} else {
 					results = append(results, g.result(g.chainTo(r.Range(1, g.genuine), r.Range(1, 6)), 0x13, damage))
@@ -627,6 +637,8 @@ func c32GenAll(r *vu.RNG, n int, emit func(string)) {
 	for i := 0; i < n; i++ {
 		emit(c32GenCase(r))
 	}
+	// the environment model against the real blockImporter (harness_importer_test.go)
+	c32iGen(r.Fork(), n/2, emit)
 }
 
 func TestVerifC32(t *testing.T) { vu.Run(t, "C32", 1500, c32GenAll, c32Run) }
